@@ -12,6 +12,9 @@
 -/
 import VotelibProofs.Lemmas.OverhangLRCont
 import VotelibProofs.Lemmas.OverhangByParty
+import VotelibProofs.Lemmas.OverhangCtyFloors
+import VotelibProofs.Lemmas.OverhangTieKeys
+import VotelibProofs.Lemmas.OverhangLRContTie
 import Mathlib.Algebra.Order.Archimedean.Basic
 namespace VL.C15
 open VL VL.OH
@@ -560,6 +563,135 @@ theorem multistage_final_is_proportional (div : Nat → Rat) (hd : (∀ k, 0 < d
   exact hfin c
 
 
+/-- **Final totals = proportional distribution of the enlarged house, ties included.**  As
+    `level_final_is_proportional` (highest averages with strictly increasing divisors, positive votes, all direct seats
+    inside the tier) but WITHOUT the hypothesis that the enlarged house reports no tie: direct seats plus awarded seats
+    equal the proportional distribution for every party, and the awarded result carries exactly the same `Tie` entries
+    (same members, same number of seats). -/
+theorem level_final_is_proportional_tie (div : Nat → Rat) (hd : (∀ k, 0 < div k) ∧ StrictMono div) (votes : Votes)
+    (hv : ∀ p ∈ votes, 0 < p.2) (hn : (keys votes).Nodup) (fuel n : Nat) (prev : Seats)
+    (hpn : (prev.map (·.1)).Nodup) (adj : Nat) (res prop full : Dist)
+    (hc : levelOverhang (haEval div) fuel votes n prev [] = .ok adj)
+    (hr : adjustedSeatCount (levelOverhang (haEval div) fuel) (haEval div) votes n prev [] = .ok res)
+    (hp : haEval div votes n [] [] = .ok prop)
+    (htier : ∀ p ∈ prev, 0 < p.2 → distHas prop (.cand p.1) = true)
+    (hfull : haEval div votes (n + adj) [] [] = .ok full) :
+    (∀ c, natLookup prev c 0 + distGet res (.cand c) = distGet full (.cand c)) ∧
+    (∀ S, distGet res (.tie S) = distGet full (.tie S)) := by
+  have hv0 : ∀ p ∈ votes, 0 ≤ p.2 := fun p hp' => le_of_lt (hv p hp')
+  obtain ⟨prop', hp', _, _, hcases⟩ := level_is_least (haEval div) fuel votes n prev [] adj hc
+  rw [hp] at hp'
+  have hpe : prop' = prop := (Except.ok.inj hp').symm
+  subst hpe
+  have hpnd : (prop'.map (·.1)).Nodup := haEval_nodup div votes n [] [] prop' hp
+  have hdrop : nonpropDrop (lowestAllowed prop' prev) prev = 0 := by
+    rw [nonpropDrop_eq, List.sum_eq_zero_iff]
+    intro x hx
+    obtain ⟨p, hpm, rfl⟩ := List.mem_map.mp hx
+    rw [distHas_lowestAllowed]
+    by_cases hz : 0 < p.2
+    · rw [htier p hpm hz]; rfl
+    · have : p.2 = 0 := by omega
+      split <;> simp [this]
+  rw [hdrop] at hcases
+  have hmeets : MeetsFloors full (lowestAllowed prop' prev) := by
+    rcases hcases with ⟨h0, hm⟩ | ⟨_, _, ⟨r, hr', hm⟩, _⟩
+    · subst h0
+      rw [Nat.add_zero, hp] at hfull
+      rw [← Except.ok.inj hfull]; exact hm
+    · rw [Nat.sub_zero, hfull] at hr'
+      rw [Except.ok.inj hr']; exact hm
+  obtain ⟨hfe, hfpool⟩ := haEval_ok div votes (n + adj) [] full hfull
+  have hok0 : CfgOK (cfgH div votes (n + adj)) := C01.cfgOK_of_divisor _ hd hv0 hn
+  have hNpos : 0 < n + adj := by
+    obtain ⟨p, hpp⟩ := List.exists_mem_of_ne_nil _ hfpool
+    obtain ⟨q, _, _, hlt, _⟩ := (haInit_pool_mem _ p).mp hpp
+    have : (cfgP div votes (n + adj) []).capOf q.1 = n + adj := rfl
+    omega
+  have hcfg : cfgP div votes (n + adj) [] = cfgH div votes (n + adj) := rfl
+  have hle : ∀ c, natLookup prev c 0 ≤ haSeats (cfgH div votes (n + adj)) c := by
+    intro c
+    by_cases hz : 0 < natLookup prev c 0
+    · unfold natLookup at hz ⊢
+      cases hf : prev.find? (fun q => q.1 = c) with
+      | none => simp
+      | some q =>
+        rw [hf] at hz
+        simp only at hz ⊢
+        have hq := List.mem_of_find?_eq_some hf
+        have hqc := List.find?_some hf
+        simp only [decide_eq_true_eq] at hqc
+        have hin := htier q hq hz
+        rw [distHas_iff, hqc] at hin
+        obtain ⟨e, he, hek⟩ := List.mem_map.mp hin
+        have hm := hmeets (e.1, max (prevGetKey prev e.1) e.2)
+          (by unfold lowestAllowed; exact List.mem_map.mpr ⟨e, he, rfl⟩)
+        simp only at hm
+        rw [hek] at hm
+        have hpk : prevGetKey prev (.cand c) = q.2 := by
+          simp only [prevGetKey]; unfold natLookup; rw [hf]
+        rw [hpk, hfe] at hm
+        have := distGet_haResult (cfgH div votes (n + adj)) hok0 c
+        rw [hcfg] at hm
+        omega
+    · omega
+  unfold adjustedSeatCount at hr
+  rw [hc] at hr
+  simp only [bind, Except.bind] at hr
+  obtain ⟨hre, hrpool⟩ := haEval_ok div votes (n + adj) prev res hr
+  obtain ⟨hcont, hts, hmem⟩ := ha_continue_tie div hd votes hv hn (n + adj) hNpos prev hpn hrpool hle
+  have hokp : CfgOK (cfgP div votes (n + adj) prev) := C01.cfgOK_of_divisor _ hd hv0 hn
+  refine ⟨fun c => ?_, fun S => ?_⟩
+  · rw [hre, hfe, distGet_haResult _ hokp, hcfg, distGet_haResult _ hok0]
+    exact hcont c
+  · rw [hre, hfe, hcfg, distGet_haResult_tie, distGet_haResult_tie]
+    cases ht0 : (haRun (cfgH div votes (n + adj))).tie with
+    | none =>
+      have h0 : tieSeats (haRun (cfgH div votes (n + adj))) = 0 := by unfold tieSeats; rw [ht0]
+      rw [h0] at hts
+      cases htP : (haRun (cfgP div votes (n + adj) prev)).tie with
+      | none => rfl
+      | some Tm =>
+        obtain ⟨T, m⟩ := Tm
+        have hm : tieSeats (haRun (cfgP div votes (n + adj) prev)) = m := by unfold tieSeats; rw [htP]
+        have hm0 : m = 0 := by omega
+        simp only [hm0]
+        split <;> rfl
+    | some Tm0 =>
+      obtain ⟨T0, m0⟩ := Tm0
+      have h0 : tieSeats (haRun (cfgH div votes (n + adj))) = m0 := by unfold tieSeats; rw [ht0]
+      obtain ⟨hm0pos, _⟩ := C01.ha_tie _ hok0 T0 m0 ht0
+      cases htP : (haRun (cfgP div votes (n + adj) prev)).tie with
+      | none =>
+        have hP : tieSeats (haRun (cfgP div votes (n + adj) prev)) = 0 := by unfold tieSeats; rw [htP]
+        omega
+      | some TmP =>
+        obtain ⟨TP, mP⟩ := TmP
+        have hP : tieSeats (haRun (cfgP div votes (n + adj) prev)) = mP := by unfold tieSeats; rw [htP]
+        have hmm : mP = m0 := by omega
+        obtain ⟨T0', _, ht0', hnd0, _⟩ := tie_facts (cfgH div votes (n + adj)) hok0 (by omega)
+        obtain ⟨TP', _, htP', hndP, _⟩ := tie_facts (cfgP div votes (n + adj) prev) hokp (by omega)
+        rw [ht0] at ht0'
+        rw [htP] at htP'
+        have e0 : T0' = T0 := by injection ht0' with h; exact (Prod.mk.inj h).1.symm
+        have eP : TP' = TP := by injection htP' with h; exact (Prod.mk.inj h).1.symm
+        subst e0; subst eP
+        have hs : sortNat TP' = sortNat T0' := sortNat_eq_of_same_members TP' T0' hndP hnd0 (hmem T0' m0 TP' mP ht0 htP)
+        simp only [hs, hmm]
+
+open Gen.Divisor in
+/-- **The boundary of the final-totals clause: parties without votes.**  D'Hondt, nobody has votes, 2 seats, party 0 holds
+    one directly.  From scratch both parties are seated in one batch of quotient 0 (`{0: 1, 2: 1}`); continued from the
+    direct seat, party 0's second quotient ties with party 2's first and a `Tie` is reported: party 2 ends with 0, not 1.
+    The positivity hypothesis of `level_final_is_proportional(_tie)` cannot be dropped. -/
+theorem final_zero_votes_witness :
+    levelOverhang (haEval d_hondt) 200 [(0, 0), (2, 0)] 2 [(0, 1)] [] = .ok 0 ∧
+    adjustedSeatCount (levelOverhang (haEval d_hondt) 200) (haEval d_hondt) [(0, 0), (2, 0)] 2 [(0, 1)] []
+      = .ok [(.tie [0, 2], 1)] ∧
+    haEval d_hondt [(0, 0), (2, 0)] (2 + 0) [] [] = .ok [(.cand 0, 1), (.cand 2, 1)] := by
+  refine ⟨by decide +kernel, by decide +kernel, by decide +kernel⟩
+
+
 /-! ### the literal "smallest enlargement" reading, and where the code departs from it -/
 
 /-- **Smallest enlargement, literally.**  For an evaluator that fills the house and returns distinct keys: whenever the
@@ -833,6 +965,105 @@ theorem level_final_is_proportional_lr (votes : Votes) (hv : ∀ p ∈ votes, 0 
     cases hcc
 
 
+/-- **Final totals = proportional distribution of the enlarged house, Hare largest remainder, ties included.**  As
+    `level_final_is_proportional_lr` without the hypothesis that the enlarged house reports no tie: party totals agree and
+    the awarded result carries exactly the same `Tie` entries. -/
+theorem level_final_is_proportional_lr_tie (votes : Votes) (hv : ∀ p ∈ votes, 0 ≤ p.2) (hn : (keys votes).Nodup)
+    (fuel n : Nat) (prev : Seats) (hpn : (prev.map (·.1)).Nodup) (hpk : ∀ p ∈ prev, p.1 ∈ keys votes)
+    (adj : Nat) (res prop full : Dist)
+    (hc : levelOverhang lrHareEval fuel votes n prev [] = .ok adj)
+    (hr : adjustedSeatCount (levelOverhang lrHareEval fuel) lrHareEval votes n prev [] = .ok res)
+    (hp : lrHareEval votes n [] [] = .ok prop)
+    (htier : ∀ p ∈ prev, 0 < p.2 → distHas prop (.cand p.1) = true)
+    (hfull : lrHareEval votes (n + adj) [] [] = .ok full) :
+    (∀ p ∈ votes, natLookup prev p.1 0 + distGet res (.cand p.1) = distGet full (.cand p.1)) ∧
+    (∀ S, distGet res (.tie S) = distGet full (.tie S)) := by
+  obtain ⟨prop', hp', _, _, hcases⟩ := level_is_least lrHareEval fuel votes n prev [] adj hc
+  rw [hp] at hp'
+  have hpe : prop' = prop := (Except.ok.inj hp').symm
+  subst hpe
+  have hpnd : (prop'.map (·.1)).Nodup := lrHare_nodup votes hn n [] [] prop' hp
+  have hdrop : nonpropDrop (lowestAllowed prop' prev) prev = 0 := by
+    rw [nonpropDrop_eq, List.sum_eq_zero_iff]
+    intro x hx
+    obtain ⟨p, hpm, rfl⟩ := List.mem_map.mp hx
+    rw [distHas_lowestAllowed]
+    by_cases hz : 0 < p.2
+    · rw [htier p hpm hz]; rfl
+    · have : p.2 = 0 := by omega
+      split <;> simp [this]
+  rw [hdrop] at hcases
+  have hmeets : MeetsFloors full (lowestAllowed prop' prev) := by
+    rcases hcases with ⟨h0, hm⟩ | ⟨_, _, ⟨r, hr', hm⟩, _⟩
+    · subst h0
+      rw [Nat.add_zero, hp] at hfull
+      rw [← Except.ok.inj hfull]; exact hm
+    · rw [Nat.sub_zero, hfull] at hr'
+      rw [Except.ok.inj hr']; exact hm
+  unfold adjustedSeatCount at hr
+  rw [hc] at hr
+  simp only [bind, Except.bind] at hr
+  obtain ⟨hre, _⟩ := lrHare_result votes (n + adj) prev res hr
+  obtain ⟨hfe, _⟩ := lrHare_result votes (n + adj) [] full hfull
+  by_cases hne : votes = []
+  · subst hne
+    refine ⟨fun p hp' => by simp at hp', fun S => ?_⟩
+    rw [hre, hfe]
+    simp [lrBest, lrRems, lrQe, getNBest, sortDesc, seatsToDist, distGet]
+  have hle : ∀ p ∈ votes, natLookup prev p.1 0 ≤ distGet full (.cand p.1) := by
+    intro p _
+    by_cases hz : 0 < natLookup prev p.1 0
+    · unfold natLookup at hz ⊢
+      cases hf : prev.find? (fun q => q.1 = p.1) with
+      | none => simp
+      | some q =>
+        rw [hf] at hz
+        simp only at hz ⊢
+        have hq := List.mem_of_find?_eq_some hf
+        have hqc := List.find?_some hf
+        simp only [decide_eq_true_eq] at hqc
+        have hin := htier q hq hz
+        rw [distHas_iff, hqc] at hin
+        obtain ⟨e, he, hek⟩ := List.mem_map.mp hin
+        have hm := hmeets (e.1, max (prevGetKey prev e.1) e.2)
+          (by unfold lowestAllowed; exact List.mem_map.mpr ⟨e, he, rfl⟩)
+        simp only at hm
+        rw [hek] at hm
+        have hpk' : prevGetKey prev (.cand p.1) = q.2 := by
+          simp only [prevGetKey]; unfold natLookup; rw [hf]
+        rw [hpk'] at hm
+        omega
+    · omega
+  obtain ⟨hcont, hcnt, hmem⟩ := lr_continue_tie votes hne hv hn (n + adj) prev hpn hpk res full hr hfull hle
+  refine ⟨hcont, fun S => ?_⟩
+  rw [hre, hfe, distGet_foldl_incSlot_tie, distGet_foldl_incSlot_tie, distGet_seatsToDist_tie, distGet_seatsToDist_tie]
+  by_cases hz : (lrBest votes (n + adj) []).countP isTieSlot = 0
+  · have h0 : ∀ (l : List Slot), l.countP isTieSlot = 0 → l.countP (tieMatches S) = 0 := by
+      intro l hl
+      rw [List.countP_eq_zero] at hl ⊢
+      intro s hs hm
+      apply hl s hs
+      cases s with
+      | cand c => simp [tieMatches] at hm
+      | tie T => rfl
+    rw [h0 _ hz, h0 _ (by rw [hcnt]; exact hz)]
+  · obtain ⟨T, hT0⟩ := exists_tie_of_countP_pos (lrBest votes (n + adj) []) (by omega)
+    have hTP : Slot.tie T ∈ lrBest votes (n + adj) prev := (hmem T).mpr hT0
+    have huniq : ∀ (v : Votes) (k : Nat), Slot.tie T ∈ getNBest v k →
+        ∀ s ∈ getNBest v k, isTieSlot s = true → s = Slot.tie T := by
+      intro v k hin s hs hts
+      cases s with
+      | cand c => simp [isTieSlot] at hts
+      | tie T' => rw [tie_slot_unique v k T' T hs hin]
+    have e1 : (lrBest votes (n + adj) prev).countP (tieMatches S)
+        = if sortNat T = S then (lrBest votes (n + adj) prev).countP isTieSlot else 0 :=
+      countP_tieMatches_of_unique _ T S (huniq _ _ hTP)
+    have e2 : (lrBest votes (n + adj) []).countP (tieMatches S)
+        = if sortNat T = S then (lrBest votes (n + adj) []).countP isTieSlot else 0 :=
+      countP_tieMatches_of_unique _ T S (huniq _ _ hT0)
+    rw [e1, e2, hcnt]
+
+
 /-! ### LevelOverhangByConstituency -/
 
 /-- **Levelling by constituency is least** (any way `ovAt` of obtaining the overall distribution).  With the floors
@@ -1067,6 +1298,81 @@ theorem level_cty_terminates (div : Nat → Rat) (hd : (∀ k, 0 < div k) ∧ St
   simp only [h0, hH]
   rfl
 
+theorem distGet_entry (d : Dist) (k : Key) (h : distHas d k = true) : ∃ p ∈ d, p.1 = k ∧ distGet d k = p.2 := by
+  unfold distGet
+  cases hf : d.find? (fun p => p.1 = k) with
+  | none =>
+    exfalso
+    rw [distHas_iff] at h
+    obtain ⟨p, hp, hpk⟩ := List.mem_map.mp h
+    have := List.find?_eq_none.mp hf p hp
+    simp [hpk] at this
+  | some p =>
+    have hm := List.mem_of_find?_eq_some hf
+    have hk := List.find?_some hf
+    simp only [decide_eq_true_eq] at hk
+    exact ⟨p, hm, hk, rfl⟩
+
+/-- **The levelling stop condition covers the direct seats** (by constituency, all direct seats inside the tier):
+    after `LevelOverhangByConstituency` every party of the overall distribution of the enlarged house holds at least its
+    direct seats summed over the constituencies — the hypothesis of `level_cty_final_party_totals`. -/
+theorem level_cty_floors_cover_direct_seats (cev : CtyEval) (ov : PropEval) (fuel : Nat) (cv : CVotes) (n : Nat)
+    (prev : CSeats) (adj : Nat) (h : levelOverhangCty cev ov fuel cv n prev = .ok adj)
+    (cres : List (Cty × Dist)) (hc : cev cv n = .ok cres)
+    (hcn : (cres.map (·.1)).Nodup) (hpn : (prev.map (·.1)).Nodup) (hsub : ∀ d ∈ prev, d.1 ∈ cres.map (·.1))
+    (hrn : ∀ d ∈ cres, (d.2.map (·.1)).Nodup) (hqn : ∀ d ∈ prev, (d.2.map (·.1)).Nodup)
+    (hdrop0 : nonpropDropCty (lowestAllowedCty cres prev) prev = 0)
+    (overall : Dist) (hov : ov (voteTotals cv) (n + adj) [] [] = .ok overall) (hond : (overall.map (·.1)).Nodup)
+    (e : Key × Nat) (he : e ∈ overall) : sumSeats (partyPrev prev e.1) ≤ e.2 := by
+  obtain ⟨cres', hc', _, _, ⟨r, hr, hm⟩, _⟩ := level_cty_is_least cev ov fuel cv n prev adj h
+  rw [hc] at hc'
+  have hce : cres' = cres := (Except.ok.inj hc').symm
+  subst hce
+  rw [hdrop0, Nat.sub_zero, hov] at hr
+  have hre : overall = r := Except.ok.inj hr
+  subst hre
+  have hval : distGet overall e.1 = e.2 := distGet_of_mem hond he
+  cases hk : e.1 with
+  | tie T => simp [partyPrev, sumSeats]
+  | cand c =>
+    rw [hk] at hval
+    by_cases hfl : distHas (lowestAllowedCty cres' prev) (.cand c) = true
+    · obtain ⟨p, hp, hpk, hpv⟩ := distGet_entry _ _ hfl
+      have h1 := hm p hp
+      rw [hpk, hval] at h1
+      have hin : Key.cand c ∈ propParties cres' :=
+        lowestAllowedCty_keys cres' prev _ ((distHas_iff _ _).mp hfl)
+      have h2 := floors_cover_direct cres' prev hcn hpn hsub hrn hqn c hin
+      omega
+    · have hf : distHas (lowestAllowedCty cres' prev) (.cand c) = false := by
+        cases hd : distHas (lowestAllowedCty cres' prev) (.cand c) with
+        | false => rfl
+        | true => exact absurd hd hfl
+      rw [no_floor_no_direct _ prev hdrop0 c hf]
+      exact Nat.zero_le _
+
+/-- **By constituency: final party totals = the overall proportional distribution of the enlarged house.**
+    `AdjustedSeatCount(LevelOverhangByConstituency(cev, ov), ByParty(ov, HighestAverages))`, all direct seats inside
+    the tier and inside evaluated constituencies, distinct keys everywhere: for EVERY party of the overall distribution
+    of the enlarged house `n + adj`, direct seats plus the seats awarded over all constituency rows are exactly its
+    overall seats. -/
+theorem level_cty_final_is_proportional (div : Nat → Rat) (hd : (∀ k, 0 < div k) ∧ StrictMono div) (cev : CtyEval)
+    (ov : PropEval) (fuel : Nat) (cv : CVotes) (hcvn : (cv.map (·.1)).Nodup) (hvn : ∀ d ∈ cv, ∀ p ∈ d.2, 0 ≤ p.2)
+    (n : Nat) (prev : CSeats) (adj : Nat) (R : NDist)
+    (h : levelOverhangCty cev ov fuel cv n prev = .ok adj)
+    (hR : adjustedByParty (levelOverhangCty cev ov fuel) ov (haEval div) cv n prev = .ok R)
+    (cres : List (Cty × Dist)) (hc : cev cv n = .ok cres)
+    (hcn : (cres.map (·.1)).Nodup) (hpn : (prev.map (·.1)).Nodup) (hsub : ∀ d ∈ prev, d.1 ∈ cres.map (·.1))
+    (hrn : ∀ d ∈ cres, (d.2.map (·.1)).Nodup) (hqn : ∀ d ∈ prev, (d.2.map (·.1)).Nodup)
+    (hdrop0 : nonpropDropCty (lowestAllowedCty cres prev) prev = 0)
+    (overall : Dist) (hov : ov (voteTotals cv) (n + adj) [] [] = .ok overall) (hond : (overall.map (·.1)).Nodup) :
+    ∀ e ∈ overall, sumSeats (partyPrev prev e.1) + colSum R e.1 = e.2 := by
+  intro e he
+  exact level_cty_final_party_totals div hd cv hcvn hvn (levelOverhangCty cev ov fuel) ov n prev adj R overall h hR hov
+    hond e he
+    (level_cty_floors_cover_direct_seats cev ov fuel cv n prev adj h cres hc hcn hpn hsub hrn hqn hdrop0 overall hov
+      hond e he)
+
 /-! ### non-vacuity: concrete inputs meeting the hypotheses of the conditional theorems -/
 
 section Examples
@@ -1128,6 +1434,22 @@ example : levelOverhangCtyDefault (byConstituencyApportioned (haEval d_hondt) (h
 example : adjustedByParty (levelOverhangCty (byConstituencyFixed (haEval d_hondt) [(0, 3), (1, 2)]) (haEval d_hondt) 200)
     (haEval d_hondt) (haEval d_hondt) [(0, [(0, 60), (1, 30)]), (1, [(0, 90), (1, 10)])] 5 [(1, [(1, 1)])]
     = .ok [(.cand 0, [(.cand 0, 3), (.cand 1, 1)]), (.cand 1, [(.cand 0, 4)])] := by decide +kernel
+/-- hypotheses of `level_cty_final_is_proportional` on the same by-constituency input: no direct seat outside the tier,
+    overall D'Hondt distribution of 5 + 4 = 9 seats -/
+example : nonpropDropCty (lowestAllowedCty [(0, [(.cand 0, 2), (.cand 1, 1)]), (1, [(.cand 0, 2)])] [(1, [(1, 1)])])
+    [(1, [(1, 1)])] = 0 := by decide +kernel
+example : haEval d_hondt (voteTotals [(0, [(0, 60), (1, 30)]), (1, [(0, 90), (1, 10)])]) (5 + 4) [] []
+    = .ok [(.cand 0, 7), (.cand 1, 2)] := by decide +kernel
+/-- a tie in the enlarged house (`level_final_is_proportional_tie`): D'Hondt 4:2:2, 3 seats, party 0 holds one directly;
+    from scratch {0: 1, Tie(0,1,2): 2}, continued from the direct seat the same tie for the same two seats -/
+example : adjustedSeatCount (levelOverhang (haEval d_hondt) 200) (haEval d_hondt) [(0, 4), (1, 2), (2, 2)] 3 [(0, 1)] []
+    = .ok [(.tie [0, 1, 2], 2)] := by decide +kernel
+example : haEval d_hondt [(0, 4), (1, 2), (2, 2)] 3 [] [] = .ok [(.cand 0, 1), (.tie [0, 1, 2], 2)] := by decide +kernel
+/-- Hare largest remainder with a tie in the enlarged house (`level_final_is_proportional_lr_tie`): votes 3:1:1, 2 seats,
+    party 0 holds one seat directly: from scratch {0: 1, Tie(1,2): 1}, continued from the direct seat {Tie(1,2): 1} -/
+example : lrHareEval [(0, 3), (1, 1), (2, 1)] 2 [] [] = .ok [(.cand 0, 1), (.tie [1, 2], 1)] := by decide +kernel
+example : adjustedSeatCount (levelOverhang lrHareEval 200) lrHareEval [(0, 3), (1, 1), (2, 1)] 2 [(0, 1)] []
+    = .ok [(.tie [1, 2], 1)] := by decide +kernel
 
 end Examples
 
